@@ -79,6 +79,14 @@ pub struct Profile {
     pub w_peer_how: [u32; 4],
     pub peer_depth: u32,
     pub late_spawn: bool,
+    /// real-thread engine: Task, Thread, Pool
+    pub w_mode: [u32; 3],
+    /// thread/pool clients: async call, blocking without timeout, blocking with timeout
+    pub w_block: [u32; 3],
+    /// chance that a blocking call uses the deprecated alias
+    pub p_dep: (u32, u32),
+    /// chance that a task client uses a blocking-with-timeout call
+    pub p_task_block: (u32, u32),
 }
 
 impl Profile {
@@ -136,6 +144,10 @@ impl Profile {
             w_peer_how: [10, 4, 6, 4],
             peer_depth: 2,
             late_spawn: false,
+            w_mode: [1, 0, 0],
+            w_block: [1, 0, 0],
+            p_dep: (0, 1),
+            p_task_block: (0, 1),
         }
     }
 }
@@ -168,6 +180,47 @@ impl<'a> Gen<'a> {
             2 => How::Ask,
             3 => How::AskT(self.timeout()),
             _ => How::AskJoin,
+        }
+    }
+
+    /// API for a client operation, depending on where the client runs
+    fn client_how(&mut self, mode: ClientMode, allow_join: bool) -> How {
+        let base = self.how(allow_join);
+        let blockify = |h: How, t: Option<Ms>, dep: bool| -> How {
+            match (h.is_tell(), dep) {
+                (true, false) => How::BTell(t),
+                (true, true) => How::DepTell(t),
+                (false, false) => How::BAsk(t),
+                (false, true) => How::DepAsk(t),
+            }
+        };
+        match mode {
+            ClientMode::Task => {
+                if base != How::AskJoin && self.ch.chance(self.p.p_task_block.0, self.p.p_task_block.1) {
+                    let t = self.timeout();
+                    blockify(base, Some(t), false)
+                } else {
+                    base
+                }
+            }
+            _ => {
+                if base == How::AskJoin {
+                    return base;
+                }
+                match self.ch.weighted(&self.p.w_block) {
+                    0 => base,
+                    1 => {
+                        let dep = self.ch.chance(self.p.p_dep.0, self.p.p_dep.1);
+                        // the deprecated aliases ignore whatever timeout they are given
+                        let t = if dep && self.ch.chance(1, 2) { Some(self.timeout()) } else { None };
+                        blockify(base, t, dep)
+                    }
+                    _ => {
+                        let t = self.timeout();
+                        blockify(base, Some(t), false)
+                    }
+                }
+            }
         }
     }
 
@@ -293,6 +346,11 @@ impl<'a> Gen<'a> {
 
     pub fn client(&mut self, _c: usize) -> ClientSpec {
         let n = self.n_actors;
+        let mode = match self.ch.weighted(&self.p.w_mode) {
+            0 => ClientMode::Task,
+            1 => ClientMode::Thread,
+            _ => ClientMode::Pool,
+        };
         let mut init: Vec<usize> = vec![];
         if self.p.init_all {
             init.extend(0..n);
@@ -342,7 +400,7 @@ impl<'a> Gen<'a> {
             let target = strong.get(h).map(|s| s.0).unwrap_or(0);
             let op = match kind {
                 0 => {
-                    let how = self.how(true);
+                    let how = self.client_how(mode, true);
                     let msg = self.msg(target, 0, how == How::AskJoin);
                     Op::Send { h, how, msg }
                 }
@@ -402,7 +460,7 @@ impl<'a> Gen<'a> {
                 }
             }
         }
-        ClientSpec { init, ops, thread: false }
+        ClientSpec { init, ops, mode }
     }
 
     pub fn scenario(&mut self) -> Scenario {
